@@ -193,6 +193,18 @@ func (c *Ctx) nullableSource(v ssa.Value, nf map[string]bool) string {
 			return short(k)
 		}
 	case *ssa.Extract:
+		// the pointer result of a module function that has a "nothing there" exit — (nil, nil): no value and no error
+		if cl, ok := x.Tuple.(*ssa.Call); ok && x.Index == 0 {
+			if g := cl.Call.StaticCallee(); g != nil && inModule(g) && g.Blocks != nil {
+				if _, isP := x.Type().Underlying().(*types.Pointer); isP {
+					for _, r := range returnsOf(g) {
+						if len(r.Results) >= 2 && isNilConst(r.Results[0]) && isNilConst(r.Results[len(r.Results)-1]) && isErrType(r.Results[len(r.Results)-1].Type()) {
+							return "result of " + short(g.String()) + ", which may return (nil, nil)"
+						}
+					}
+				}
+			}
+		}
 		if lk, ok := x.Tuple.(*ssa.Lookup); ok && x.Index == 0 {
 			if mt, isM := lk.X.Type().Underlying().(*types.Map); isM {
 				if _, isP := mt.Elem().Underlying().(*types.Pointer); isP {
@@ -1262,7 +1274,65 @@ func (k *c19) definiteNil(f *ssa.Function) {
 			}
 		}
 	})
+	// … or handed to a module function that invokes a method on it / dereferences it without a test of its own
+	// (`logfields.WithError(err)` with the err of an earlier, successful step: WithError calls err.Error())
+	forEachInstr(f, func(in ssa.Instruction) {
+		cl, ok := in.(*ssa.Call)
+		if !ok {
+			return
+		}
+		g := cl.Call.StaticCallee()
+		if g == nil || !inModule(g) || g.Blocks == nil {
+			return
+		}
+		for i, a := range cl.Call.Args {
+			if i >= len(g.Params) {
+				continue
+			}
+			if _, isK := a.(*ssa.Const); isK {
+				continue
+			}
+			where := knownNilAt(a, cl.Block(), 0)
+			if where == nil {
+				continue
+			}
+			uses := false
+			if types.IsInterface(g.Params[i].Type()) {
+				uses = invokesUnchecked(g, i)
+			} else if k.requires[g][i] {
+				uses = true
+			}
+			if uses {
+				k.obl("C19.Z", short(f.String())+": nil handed to "+short(g.String()), false, cl.Pos(), fmt.Sprintf("%s is nil on every path reaching %s (found nil at %s) and is handed to %s, which uses it without a nil test: certain panic", c.Path(a, nil), c.pos(cl.Pos()), c.pos(where.Pos()), short(g.String())))
+			}
+		}
+	})
 	k.counts["C19.Z-functions-scanned"]++
+}
+
+// invokesUnchecked: g invokes a method on its interface-typed parameter i somewhere that is not behind a nil test of
+// that parameter.
+func invokesUnchecked(g *ssa.Function, i int) bool {
+	p := g.Params[i]
+	if p.Referrers() == nil {
+		return false
+	}
+	for _, r := range *p.Referrers() {
+		cl, ok := r.(*ssa.Call)
+		if !ok || !cl.Call.IsInvoke() || cl.Call.Value != ssa.Value(p) {
+			continue
+		}
+		guarded := false
+		for _, e := range nilTestEdges(p, false) {
+			if len(e.to.Preds) == 1 && e.to.Dominates(cl.Block()) {
+				guarded = true
+			}
+		}
+		if !guarded {
+			return true
+		}
+	}
+	return false
 }
 
 // ---- G: preconditions of panicking callees -------------------------------------------------------
